@@ -161,7 +161,7 @@ pub struct Beh {
 
 #[derive(Clone, Copy, Debug, PartialEq, Eq, Serialize, Deserialize)]
 pub struct Pick {
-    pub task: u8,
+    pub task: u16,
     /// may poll the preferred task even though it was not woken
     pub spurious: bool,
     /// prefer advancing the virtual clock to the next event
